@@ -54,12 +54,16 @@ def control_flow_programs():
                 elt = {"text": "jeden Buchstaben", "list": "jede Zahl", "textlist": "jeden Text", "call": "jeden Buchstaben"}[kind]
                 yield "foreach:%s:%s" % (kind, ename), DECLS + "Die Zahl i ist 0.\nFür %s e in %s, mache:\n\tErhöhe i um 1.\n%s" % (elt, tmp, body)
         # returns out of nested scopes of a function, with live locals and temporaries on the way
-        for where in ("top", "if", "loop", "loop-in-if", "foreach"):
+        for where in ("top", "if", "loop", "loop-in-if", "foreach", "foreach-texts", "foreach-kombis", "foreach-nested"):
             inner = {"top": "\tGib %s zurück.\n" % n,
                      "if": "\tWenn wahr, dann:\n\t\tDer Text b ist p verkettet mit \"b\".\n\t\tGib %s zurück.\n\tGib 0 zurück.\n" % n,
                      "loop": "\tFür jede Zahl i von 1 bis 3, mache:\n\t\tDer Text b ist p verkettet mit \"b\".\n\t\tWenn i gleich 2 ist, Gib %s zurück.\n\tGib 0 zurück.\n" % n,
                      "loop-in-if": "\tWenn wahr, dann:\n\t\tDer Text a ist p verkettet mit \"a\".\n\t\tSolange wahr, mache:\n\t\t\tDer Text b ist a verkettet mit \"b\".\n\t\t\tGib %s zurück.\n\tGib 0 zurück.\n" % n,
-                     "foreach": "\tFür jeden Buchstaben c in (p verkettet mit \"xyz\"), mache:\n\t\tDer Text b ist p verkettet mit \"b\".\n\t\tWenn c gleich 'y' ist, Gib %s zurück.\n\tGib 0 zurück.\n" % n}[where]
+                     "foreach": "\tFür jeden Buchstaben c in (p verkettet mit \"xyz\"), mache:\n\t\tDer Text b ist p verkettet mit \"b\".\n\t\tWenn c gleich 'y' ist, Gib %s zurück.\n\tGib 0 zurück.\n" % n,
+                     # the loop variable itself owns heap memory when the return leaves the loop
+                     "foreach-texts": "\tFür jeden Text w in (eine Liste, die aus p, (p verkettet mit \"lang genug\"), \"drei\" besteht), mache:\n\t\tWenn die Länge von w größer als 3 ist, Gib %s zurück.\n\tGib 0 zurück.\n" % n,
+                     "foreach-kombis": "\tFür jeden K k in (eine Liste, die aus (mach_K 1 p), (mach_K 2 (p verkettet mit \"zwei\")) besteht), mache:\n\t\tWenn fz von k gleich 2 ist, Gib %s zurück.\n\tGib 0 zurück.\n" % n,
+                     "foreach-nested": "\tFür jeden Text w in (eine Liste, die aus p, \"zweiter\" besteht), mache:\n\t\tFür jeden Text v in (eine Liste, die aus w, (w verkettet mit p) besteht), mache:\n\t\t\tWenn die Länge von v größer als 4 ist, Gib %s zurück.\n\tGib 0 zurück.\n" % n}[where]
             fn = ("Die Funktion frueh mit dem Parameter p vom Typ Text, gibt eine Zahl zurück, macht:\n\tDer Text oben ist p verkettet mit \"o\".\n" + inner +
                   "Und kann so benutzt werden:\n\t\"frueh <p>\"\n\n")
             yield "return:%s:%s" % (kind, where), DECLS + fn + "Schreibe (frueh t).\nSchreibe (frueh (t verkettet mit t)).\n"
